@@ -248,6 +248,7 @@ class Event:
     node: Any = None
     extra: dict = field(default_factory=dict)
     pc_len: int = 0
+    loops: list = field(default_factory=list)   # Loop nodes of the active generic frames
 
 
 @dataclass
